@@ -7,6 +7,10 @@
 (*                  the same final schema (the one a fresh database gets: trace 1 by convention)*)
 (*   recorded_once  ... records every version once                                              *)
 (*   noop           ... and running them again changes nothing                                  *)
+(* Start states built from the tree's migration files have origin "tree"; those built from the   *)
+(* migration texts as released (what databases in the field contain) have origin                 *)
+(* "released_prefix" / "released_legacy" -- the clauses are the same, the origin only names the  *)
+(* cause in the finding key.                                                                      *)
 (* A trace is: the projected start state `pre`, then events {op: "run" | "crash", res, changes, *)
 (* post}.  A "crash" event (the process was killed inside run_migrations) carries no obligation *)
 (* by itself; the runs after it do.                                                             *)
@@ -41,6 +45,7 @@ Clause(i) == LET e == Ev(i) IN
 Cause(i) == LET p == Pre(i) IN
    IF p.has_sm /\ p.uv > 0 /\ \E x \in 1..p.uv : x \notin Range(p.rows)
    THEN "unseeded_legacy_bootstrap"       \* schema_migrations exists but was never seeded from user_version
+   ELSE IF Tr.origin # "tree" THEN Tr.origin   \* the database was left behind by the RELEASED migration texts
    ELSE "other"
 
 Init == tid \in 1..Len(T.traces) /\ l = 1 /\ verdict = "ok" /\ cause = "-"
